@@ -1,12 +1,17 @@
 // c10: writer serialisation and merge protocol.
 //
-// Stress runs of the real DB on a MemStorage with the write-path hooks (leveldb/verif_events.go)
-// recording an event trace under one global lock.  (P) is evaluated here on the implementation:
-// every call returned exactly once (watchdog), at most one lock owner / group in flight, every
-// member of a group got the leader's error value, journal records = groups, successful writers'
-// entries exactly once in the journal and in the DB, errored writers' all-or-nothing.  (K): every
-// trace is written as a Coq case and must be accepted by the transition system of
-// Conc/WriteMerge.v (Corr/C10Run.v), together with the parsed journal composition.
+// Stress runs of the real DB on a checker-owned storage (vstor op log, no data kept) with the
+// write-path hooks (leveldb/verif_events.go) recording an event trace under one global lock.
+// (P) is evaluated here on the implementation: every call returned exactly once (watchdog), at
+// most one lock owner / group in flight, every member of a group got the leader's error value,
+// journal records = groups, successful writers' entries exactly once in the journal and in the DB,
+// errored writers' all-or-nothing; and on the data (data.go): a synced call that returned nil is
+// covered by a storage Sync of its journal file, writeJournal's sync argument is the OR of the
+// group's flags, the record is the concatenation of the batches in the order writeLocked builds
+// them, the putMem calls number the batches consecutively, the merge limit is respected.
+// (K): every trace is written as a Coq case and must be accepted by the data-carrying transition
+// system of Conc/WriteMergeData.v over Conc/WriteMerge.v (Corr/C10DataRun.v over Corr/C10Run.v),
+// together with the parsed journal records in file order.
 package main
 
 import (
@@ -26,9 +31,9 @@ import (
 	"github.com/syndtr/goleveldb/leveldb"
 	"github.com/syndtr/goleveldb/leveldb/journal"
 	"github.com/syndtr/goleveldb/leveldb/opt"
-	"github.com/syndtr/goleveldb/leveldb/storage"
 	"github.com/syndtr/goleveldb/leveldb/util"
 	"verifharness/lib/vlib"
+	"verifharness/lib/vstor"
 )
 
 // harness-side event kinds (the hook kinds are 100..199)
@@ -42,6 +47,7 @@ const (
 type ev struct {
 	kind int
 	a, b uint64
+	ops  int // storage op count (vstor) when the event was recorded
 }
 
 // ---- global recorder (VerifSetHooks is process wide; runs are sequential) ----
@@ -52,6 +58,7 @@ type recorder struct {
 	ymu    sync.Mutex
 	yrng   *vlib.RNG
 	ymode  int
+	vs     *vstor.Stor // storage of the current run
 }
 
 var rec atomic.Value // *recorder
@@ -62,7 +69,11 @@ func record(kind int, a, b uint64) {
 		return
 	}
 	r.mu.Lock()
-	r.events = append(r.events, ev{kind, a, b})
+	n := 0
+	if r.vs != nil {
+		n = r.vs.OpCount()
+	}
+	r.events = append(r.events, ev{kind, a, b, n})
 	r.mu.Unlock()
 }
 
@@ -179,12 +190,29 @@ func genSize(r *vlib.RNG, class int, wb int) int {
 	}
 }
 
+// sizes for the "limit" class: sums of a few of them land on / next to 128 KiB (the merge limit) and
+// on the free space of a 256/512 KiB memdb
+func limitSize(r *vlib.RNG) int {
+	switch r.Pick(4, 3, 2, 2, 1) {
+	case 0:
+		return r.Range(20<<10, 70<<10)
+	case 1: // divisors of 128 KiB: a group fills the limit exactly
+		return (128 << 10) / []int{2, 3, 4, 4, 5, 8}[r.Intn(6)]
+	case 2: // one byte more / less
+		return (128<<10)/[]int{2, 4}[r.Intn(2)] + []int{-1, 1}[r.Intn(2)]
+	case 3:
+		return r.Range(30<<10, 34<<10)
+	default:
+		return r.Range(19, 300)
+	}
+}
+
 func genScenario(seed uint64, run int, tier string) *scenario {
 	r := vlib.NewRNG(seed*1000003 + uint64(run)*7919 + 17)
 	sc := &scenario{Seed: seed, Run: run, Tier: tier, SetRO: -1, CloseRace: -1,
 		FaultWrite: [2]int{-1, 0}, FaultSync: [2]int{-1, 0}, FaultCreate: [2]int{-1, 0}}
 	// rotate through the classes so that every quick run covers all of them
-	classes := []string{"small", "big", "mixed", "compact", "txn", "close", "readonly", "fault", "nomerge", "puts", "closeover", "close", "putsfault", "big"}
+	classes := []string{"small", "big", "mixed", "compact", "txn", "close", "readonly", "fault", "nomerge", "puts", "closeover", "close", "putsfault", "big", "syncmix", "limit"}
 	sc.Class = classes[run%len(classes)]
 	sizeClass := 0
 	switch sc.Class {
@@ -193,6 +221,14 @@ func genScenario(seed uint64, run int, tier string) *scenario {
 		sc.WriteBuffer = 4 << 20
 	case "small", "close", "fault", "puts", "putsfault", "closeover":
 		sc.WriteBuffer = []int{2 << 10, 4 << 10, 8 << 10, 16 << 10}[r.Intn(4)]
+	case "syncmix":
+		// mixed Sync flags and Put/Delete/Write mixes inside merged groups, small records
+		sizeClass = 2
+		sc.WriteBuffer = 64 << 10
+	case "limit":
+		// groups that fill the merge limit: 128 KiB under a large buffer, the memdb's free space under a smaller one
+		sizeClass = 3
+		sc.WriteBuffer = []int{4 << 20, 4 << 20, 512 << 10, 256 << 10}[r.Intn(4)]
 	default:
 		if r.Chance(1, 3) {
 			sizeClass = 1
@@ -205,6 +241,11 @@ func genScenario(seed uint64, run int, tier string) *scenario {
 		}
 	}
 	sc.NoSync = r.Chance(1, 2)
+	if sc.Class == "syncmix" {
+		sc.NoSync = false
+	} else if sc.Class == "limit" {
+		sc.NoSync = r.Chance(1, 4)
+	}
 	sc.NoLargeTxn = (sc.Class == "mixed" || sc.Class == "small" || sc.Class == "fault") && r.Chance(1, 2)
 	sc.NoMerge = sc.Class == "nomerge" && r.Chance(1, 2)
 	total := r.Range(8, 26)
@@ -212,6 +253,11 @@ func genScenario(seed uint64, run int, tier string) *scenario {
 		total = r.Range(6, 16)
 	}
 	ng := []int{2, 3, 4, 8, 16, 32}[r.Intn(6)]
+	if sc.Class == "syncmix" || sc.Class == "limit" {
+		// many goroutines, so that writers queue on the merge channel while the leader holds the lock
+		total = r.Range(12, 26)
+		ng = []int{8, 16, 32}[r.Intn(3)]
+	}
 	if ng > total {
 		ng = total
 	}
@@ -256,6 +302,32 @@ func genScenario(seed uint64, run int, tier string) *scenario {
 			c.NoMerge = r.Chance(1, 3)
 		}
 		c.Sync = r.Chance(1, 4)
+		switch sc.Class {
+		case "syncmix":
+			// a synced Put/Delete merged under an unsynced leader (and unsynced merged batches) must be common
+			c.Size = r.Range(19, 200)
+			if c.Kind == 1 {
+				c.Size = 18
+			} else if c.Size < 19*c.NRec {
+				c.Size = 19 * c.NRec
+			}
+			if c.Kind == 2 {
+				c.Sync = r.Chance(1, 5)
+			} else {
+				c.Sync = r.Chance(1, 2)
+			}
+		case "limit":
+			if c.Kind == 1 && r.Chance(2, 3) {
+				c.Kind = 0 // few Deletes: they are 18 bytes whatever the class
+			}
+			if c.Kind != 1 {
+				c.Size = limitSize(r)
+				if c.Size < 19*c.NRec {
+					c.Size = 19 * c.NRec
+				}
+			}
+			c.Sync = r.Chance(1, 3)
+		}
 		sc.Writers[g] = append(sc.Writers[g], c)
 	}
 	switch sc.Class {
@@ -304,6 +376,9 @@ func genScenario(seed uint64, run int, tier string) *scenario {
 	sc.YieldMode = r.Pick(1, 2, 3, 5, 3)
 	if sc.Class == "closeover" {
 		sc.YieldMode = 3 + r.Intn(2)
+	}
+	if sc.Class == "syncmix" || sc.Class == "limit" {
+		sc.YieldMode = 3
 	}
 	return sc
 }
@@ -373,6 +448,7 @@ type runResult struct {
 	stats     map[string]int
 	reopened  bool
 	closedMid bool
+	ops       []vstor.Op // storage op log (no data)
 }
 
 type jrec struct {
@@ -384,7 +460,8 @@ type jrec struct {
 
 func runScenario(sc *scenario) *runResult {
 	res := &runResult{sc: sc, calls: map[uint64]*callState{}, stats: map[string]int{}}
-	inner := storage.NewMemStorage()
+	inner := vstor.New(true)
+	inner.NoData = true
 	js := newJStor(inner)
 	js.failWriteFrom, js.failWriteN = sc.FaultWrite[0], sc.FaultWrite[1]
 	js.failSyncFrom, js.failSyncN = sc.FaultSync[0], sc.FaultSync[1]
@@ -398,7 +475,7 @@ func runScenario(sc *scenario) *runResult {
 		res.problems = append(res.problems, "open: "+err.Error())
 		return res
 	}
-	rc := &recorder{yrng: vlib.NewRNG(sc.Seed*31 + uint64(sc.Run)), ymode: sc.YieldMode}
+	rc := &recorder{yrng: vlib.NewRNG(sc.Seed*31 + uint64(sc.Run)), ymode: sc.YieldMode, vs: inner}
 	rec.Store(rc)
 	defer rec.Store((*recorder)(nil))
 
@@ -585,6 +662,7 @@ func runScenario(sc *scenario) *runResult {
 		res.jrecords = append(res.jrecords, parseJournal(f)...)
 	}
 	res.injected = js.injWrite + js.injSync + js.injCreate
+	res.ops = inner.Ops()
 	return res
 }
 
@@ -676,6 +754,7 @@ type group struct {
 	jok      bool
 	jfail    bool
 	pub      int
+	gdata    // what the data hooks reported about the group (data.go)
 }
 
 func idset(ids []uint64) []uint64 {
@@ -762,19 +841,25 @@ func (rr *runResult) check() (groups []*group) {
 				continue
 			}
 			switch e.kind {
+			case leveldb.VerifEvFlushOk:
+				rr.dataFlushOk(g, e, bad)
 			case leveldb.VerifEvMergeTrue:
+				rr.dataMergeTrue(g, i, e, bad)
 				g.merged = append(g.merged, e.b)
 			case leveldb.VerifEvMergeOverflow:
 				if g.overflow != 0 {
 					bad("event %d: second overflow in the group of %d", i, e.a)
 				}
+				rr.dataMergeOverflow(g, i, e, bad)
 				g.overflow = e.b
 			case leveldb.VerifEvJournalOk:
 				g.jok, g.seq = true, e.b
+				g.opsJok = e.ops
 			case leveldb.VerifEvJournalFail:
 				g.jfail = true
 			case leveldb.VerifEvPublish:
 				g.pub++
+				g.pubSeq = e.b
 			}
 			if e.kind == leveldb.VerifEvFlushFail || e.kind == leveldb.VerifEvJournalFail {
 				unlocking = g
@@ -800,6 +885,33 @@ func (rr *runResult) check() (groups []*group) {
 			}
 		case leveldb.VerifEvAckSent:
 			acks++
+		case leveldb.VerifEvMergeInfo:
+			rr.dataMergeInfo(i, e, bad)
+		case leveldb.VerifEvJournalArgs, leveldb.VerifEvJournalSize, leveldb.VerifEvPutMem:
+			// reported by the lock owner (141 carries no writer id)
+			var g *group
+			for _, x := range cur {
+				if owner == fmt.Sprintf("w%d", x.leader) {
+					g = x
+				}
+			}
+			if g == nil {
+				bad("event %d (kind %d): writeJournal/putMem but no writer owns the lock (owner %q)", i, e.kind, owner)
+				continue
+			}
+			switch e.kind {
+			case leveldb.VerifEvJournalArgs:
+				g.n141++
+				g.jSeq, g.jSync, g.jNb, g.jCnt, g.ops141 = e.a, e.b>>62&1 == 1, int(e.b>>40&(1<<22-1)), e.b&(1<<40-1), e.ops
+			case leveldb.VerifEvJournalSize:
+				g.n142++
+				g.jBytes = e.b
+				if e.a != g.leader {
+					bad("event %d: writeJournal's first batch starts with writer %d, the lock owner is %d", i, e.a, g.leader)
+				}
+			case leveldb.VerifEvPutMem:
+				g.puts = append(g.puts, putCall{first: e.a, seq: e.b & (1<<40 - 1), n: e.b >> 40})
+			}
 		case leveldb.VerifEvHandover, leveldb.VerifEvRelease:
 			if unlocking == nil {
 				bad("event %d: release/hand-over outside unlockWrite", i)
@@ -884,6 +996,9 @@ func (rr *runResult) check() (groups []*group) {
 			continue
 		}
 		found[g]++
+		if rr.hang == "" {
+			rr.dataRecordOrder(g, r, bad)
+		}
 		if g.jok && g.seq != r.seq {
 			bad("journal record of the group of %d has seq %d, the leader used %d", g.leader, r.seq, g.seq)
 		}
@@ -916,6 +1031,7 @@ func (rr *runResult) check() (groups []*group) {
 			bad("call %d failed (%v) and %d of its %d entries are in the journal", id, cs.err, n, c.NRec)
 		}
 	}
+	rr.checkData(groups, bad)
 	if rr.haveCont {
 		known := map[string]bool{}
 		for id, cs := range rr.calls {
@@ -979,113 +1095,82 @@ func coqRes(c uint64) string {
 	return "ROther"
 }
 
-func (rr *runResult) coqCase() (string, int) {
-	n := len(rr.calls)
-	txn := map[uint64]bool{}
-	for id, cs := range rr.calls {
-		if cs.spec.TxnPath {
-			txn[id] = true
-		}
-	}
-	var evs []string
+// coqBaseEvent renders a base event (Corr/C10Run.v's [event]); "" = not part of the trace.
+func (rr *runResult) coqBaseEvent(e ev, n int, txn map[uint64]bool) string {
 	w := func(id uint64) string { return fmt.Sprint(id - 1) }
 	okid := func(id uint64) bool { return id >= 1 && id <= uint64(n) && !txn[id] }
-	for _, e := range rr.events {
-		var s string
-		switch e.kind {
-		case evCall:
-			if !okid(e.a) {
-				continue
-			}
-			s = fmt.Sprintf("ECall %s %s %s %d", w(e.a), vlib.CoqBool(e.b>>62&1 == 1), vlib.CoqBool(e.b>>61&1 == 1), e.b&(1<<61-1))
-		case evRet:
-			if !okid(e.a) {
-				continue
-			}
-			s = fmt.Sprintf("ERet %s %s", w(e.a), coqRes(e.b))
-		case evCloseCall:
-			s = "ECloseCall"
-		case evCloseRet:
-			s = "ECloseRet"
-		case leveldb.VerifEvSelLock, leveldb.VerifEvSelHanded, leveldb.VerifEvSelMerged, leveldb.VerifEvSelPerr, leveldb.VerifEvSelClosed,
-			leveldb.VerifEvApplied, leveldb.VerifEvRotateOk:
-			if txn[e.a] {
-				continue
-			}
-			if !okid(e.a) {
-				s = "ESelLock 4999" // an event of an unknown writer: make the case fail
-				break
-			}
-			name := map[int]string{leveldb.VerifEvSelLock: "ESelLock", leveldb.VerifEvSelHanded: "ESelHanded", leveldb.VerifEvSelMerged: "ESelMerged",
-				leveldb.VerifEvSelPerr: "ESelPerr", leveldb.VerifEvSelClosed: "ESelClosed", leveldb.VerifEvApplied: "EApplied", leveldb.VerifEvRotateOk: "ERotateOk"}[e.kind]
-			s = fmt.Sprintf("%s %s", name, w(e.a))
-		case leveldb.VerifEvFlushOk:
-			s = fmt.Sprintf("EFlushOk %s %d", w(e.a), e.b)
-		case leveldb.VerifEvFlushFail:
-			s = fmt.Sprintf("EFlushFail %s %s", w(e.a), coqRes(e.b))
-		case leveldb.VerifEvMergeRecv:
-			s = fmt.Sprintf("EMergeRecv %s %s", w(e.a), w(e.b))
-		case leveldb.VerifEvMergeTrue:
-			s = fmt.Sprintf("EMergeTrue %s %s", w(e.a), w(e.b))
-		case leveldb.VerifEvMergeOverflow:
-			s = fmt.Sprintf("EMergeOverflow %s %s", w(e.a), w(e.b))
-		case leveldb.VerifEvJournalOk:
-			s = fmt.Sprintf("EJournalOk %s %d", w(e.a), e.b)
-		case leveldb.VerifEvJournalFail:
-			s = fmt.Sprintf("EJournalFail %s %s", w(e.a), coqRes(e.b))
-		case leveldb.VerifEvPublish:
-			s = fmt.Sprintf("EPublish %s %d", w(e.a), e.b)
-		case leveldb.VerifEvRotateFail:
-			s = fmt.Sprintf("ERotateFail %s %s", w(e.a), coqRes(e.b))
-		case leveldb.VerifEvUnlock:
-			s = fmt.Sprintf("EUnlock %d %s %s", e.a, vlib.CoqBool(e.b>>4 != 0), coqRes(e.b&15))
-		case leveldb.VerifEvAckSend:
-			s = fmt.Sprintf("EAckSend %d %s", e.a, coqRes(e.b))
-		case leveldb.VerifEvAckSent:
-			s = fmt.Sprintf("EAckSent %d", e.a)
-		case leveldb.VerifEvHandover:
-			s = "EHandover"
-		case leveldb.VerifEvHandoverDone:
-			s = "EHandoverDone"
-		case leveldb.VerifEvRelease:
-			s = "ERelease"
-		case leveldb.VerifEvCRLock:
-			s = "ECRLock"
-		case leveldb.VerifEvCRUnlock:
-			s = "ECRUnlock"
-		case leveldb.VerifEvROLock:
-			s = "EROLock"
-		case leveldb.VerifEvROSent:
-			s = "EROSent"
-		case leveldb.VerifEvTxnLock:
-			s = "ETxnLock"
-		case leveldb.VerifEvTxnUnlock:
-			s = "ETxnUnlock"
-		default:
-			continue
+	var s string
+	switch e.kind {
+	case evCall:
+		if !okid(e.a) {
+			return ""
 		}
-		evs = append(evs, s)
+		s = fmt.Sprintf("ECall %s %s %s %d", w(e.a), vlib.CoqBool(e.b>>62&1 == 1), vlib.CoqBool(e.b>>61&1 == 1), e.b&(1<<61-1))
+	case evRet:
+		if !okid(e.a) {
+			return ""
+		}
+		s = fmt.Sprintf("ERet %s %s", w(e.a), coqRes(e.b))
+	case evCloseCall:
+		s = "ECloseCall"
+	case evCloseRet:
+		s = "ECloseRet"
+	case leveldb.VerifEvSelLock, leveldb.VerifEvSelHanded, leveldb.VerifEvSelMerged, leveldb.VerifEvSelPerr, leveldb.VerifEvSelClosed,
+		leveldb.VerifEvApplied, leveldb.VerifEvRotateOk:
+		if txn[e.a] {
+			return ""
+		}
+		if !okid(e.a) {
+			s = "ESelLock 4999" // an event of an unknown writer: make the case fail
+			return s
+		}
+		name := map[int]string{leveldb.VerifEvSelLock: "ESelLock", leveldb.VerifEvSelHanded: "ESelHanded", leveldb.VerifEvSelMerged: "ESelMerged",
+			leveldb.VerifEvSelPerr: "ESelPerr", leveldb.VerifEvSelClosed: "ESelClosed", leveldb.VerifEvApplied: "EApplied", leveldb.VerifEvRotateOk: "ERotateOk"}[e.kind]
+		s = fmt.Sprintf("%s %s", name, w(e.a))
+	case leveldb.VerifEvFlushOk:
+		s = fmt.Sprintf("EFlushOk %s %d", w(e.a), e.b)
+	case leveldb.VerifEvFlushFail:
+		s = fmt.Sprintf("EFlushFail %s %s", w(e.a), coqRes(e.b))
+	case leveldb.VerifEvMergeRecv:
+		s = fmt.Sprintf("EMergeRecv %s %s", w(e.a), w(e.b))
+	case leveldb.VerifEvMergeTrue:
+		s = fmt.Sprintf("EMergeTrue %s %s", w(e.a), w(e.b))
+	case leveldb.VerifEvMergeOverflow:
+		s = fmt.Sprintf("EMergeOverflow %s %s", w(e.a), w(e.b))
+	case leveldb.VerifEvJournalOk:
+		s = fmt.Sprintf("EJournalOk %s %d", w(e.a), e.b)
+	case leveldb.VerifEvJournalFail:
+		s = fmt.Sprintf("EJournalFail %s %s", w(e.a), coqRes(e.b))
+	case leveldb.VerifEvPublish:
+		s = fmt.Sprintf("EPublish %s %d", w(e.a), e.b)
+	case leveldb.VerifEvRotateFail:
+		s = fmt.Sprintf("ERotateFail %s %s", w(e.a), coqRes(e.b))
+	case leveldb.VerifEvUnlock:
+		s = fmt.Sprintf("EUnlock %d %s %s", e.a, vlib.CoqBool(e.b>>4 != 0), coqRes(e.b&15))
+	case leveldb.VerifEvAckSend:
+		s = fmt.Sprintf("EAckSend %d %s", e.a, coqRes(e.b))
+	case leveldb.VerifEvAckSent:
+		s = fmt.Sprintf("EAckSent %d", e.a)
+	case leveldb.VerifEvHandover:
+		s = "EHandover"
+	case leveldb.VerifEvHandoverDone:
+		s = "EHandoverDone"
+	case leveldb.VerifEvRelease:
+		s = "ERelease"
+	case leveldb.VerifEvCRLock:
+		s = "ECRLock"
+	case leveldb.VerifEvCRUnlock:
+		s = "ECRUnlock"
+	case leveldb.VerifEvROLock:
+		s = "EROLock"
+	case leveldb.VerifEvROSent:
+		s = "EROSent"
+	case leveldb.VerifEvTxnLock:
+		s = "ETxnLock"
+	case leveldb.VerifEvTxnUnlock:
+		s = "ETxnUnlock"
 	}
-	jfail := false
-	for _, e := range rr.events {
-		if e.kind == leveldb.VerifEvJournalFail {
-			jfail = true
-		}
-	}
-	var files []string
-	for _, r := range rr.jrecords {
-		if r.bad != "" {
-			files = append(files, fmt.Sprintf("(%d, [4999]%%nat)", r.seq)) // unparsable record: fail the case
-			continue
-		}
-		var ids []string
-		for _, id := range idset(r.ids) {
-			ids = append(ids, w(id))
-		}
-		files = append(files, fmt.Sprintf("(%d, [%s]%%nat)", r.seq, strings.Join(ids, ";")))
-	}
-	complete := !jfail && rr.injected == 0
-	return fmt.Sprintf("CTrace %d\n  [%s]\n  [%s] %s", n, strings.Join(evs, "; "), strings.Join(files, "; "), vlib.CoqBool(complete)), len(evs)
+	return s
 }
 
 // ---- driver ----
@@ -1104,14 +1189,14 @@ func replayRecord(sc *scenario, rr *runResult, problems []string) map[string]int
 
 func main() {
 	a := vlib.ParseArgs()
-	res := vlib.NewResult("C10", a.Out, "stress runs (2-32 writer goroutines, Put/Delete/Write, merge on/off, sizes around the memdb free space / 128 KiB / 1 MiB, CompactRange, transactions, SetReadOnly, Close racing, journal faults, seeded yield delays); a run is non-trivial when its trace contains a merged group AND a lock hand-over; distinct = distinct (class, group-shape multiset)")
+	res := vlib.NewResult("C10", a.Out, "stress runs (2-32 writer goroutines, Put/Delete/Write, merge on/off, sizes around the memdb free space / 128 KiB / 1 MiB, CompactRange, transactions, SetReadOnly, Close racing, journal faults, mixed Sync flags inside merged groups, groups filling the merge limit, seeded yield delays); a run is non-trivial when its trace contains a merged group AND a lock hand-over; distinct = distinct (class, group-shape multiset)")
 	defer res.Write()
 	leveldb.VerifSetHooks(yield, record)
 
 	nruns, kcap := 480, 320
 	budget := 45 * time.Second
 	if a.Thorough() {
-		nruns, kcap, budget = 40000, 2000, 15*time.Minute
+		nruns, kcap, budget = 40000, 1100, 15*time.Minute // a data case is ~4.3 KB of text: 69 per file stay under 300 KB
 	}
 	if a.Extra == "search" {
 		nruns, kcap, budget = 3000, 0, 8*time.Minute
@@ -1145,6 +1230,7 @@ func main() {
 	t0 := time.Now()
 	var cases []string
 	maxEv := 0
+	kviol := 0
 	for i, sc := range scs {
 		if time.Since(t0) > budget {
 			res.Count("runs_skipped_time_budget", len(scs)-i)
@@ -1196,6 +1282,9 @@ func main() {
 		if rr.reopened {
 			res.Count("reopened_after_racing_close", 1)
 		}
+		for k, v := range rr.stats {
+			res.Count(k, v)
+		}
 		res.Eval(sc.Class+"|"+strings.Join(shape, ","), nm > 0 && nh > 0)
 		if i < 3 {
 			res.Sample(map[string]interface{}{"class": sc.Class, "calls": sc.ncalls(), "goroutines": len(sc.Writers), "write_buffer": sc.WriteBuffer,
@@ -1209,7 +1298,12 @@ func main() {
 			if a.Replay != "" {
 				break
 			}
-			continue
+			// a few of the violating runs also go to (K): the model must refuse what the oracles refuse
+			if kviol >= 8 {
+				continue
+			}
+			kviol++
+			res.Count("k_cases_of_violating_runs", 1)
 		}
 		if len(cases) < kcap {
 			c, n := rr.coqCase()
@@ -1226,5 +1320,5 @@ func main() {
 	}
 	res.Extra["max_events_in_a_case"] = maxEv
 	res.Extra["wall_runs_s"] = time.Since(t0).Seconds()
-	res.WriteCases("From GL Require Import Conc.WriteMerge Corr.C10Run.", "c10case", "mismatches", cases, 16)
+	res.WriteCases("From GL Require Import Conc.WriteMerge Conc.WriteMergeData Corr.C10Run Corr.C10DataRun.", "c10dcase", "dmismatches", cases, 16)
 }
